@@ -663,6 +663,30 @@ func caseClauseCase(ctx *core.Ctx, idx int, res *core.Result, prop string) {
 			return c
 		}},
 	}
+	// a replacement that would leave a case clause without any expression is no Go (go/printer would write 'default:'):
+	// the site is reported or left alone, never turned into the default clause
+	{
+		pt := "@@\nvar cx expression\n@@\n " + sw + "\n-case cx, ...:\n+case ...:\n   foo()\n }\n"
+		mk := func(c string) string { return "package p\n\nfunc f() {\n\t" + sw + "\n\t" + c + "\n\t\tfoo()\n\t}\n}\n" }
+		srcs := []string{mk("default:"), mk("case " + one + ":"), mk("case " + two + ":")}
+		second := strings.TrimSpace(strings.SplitN(two, ",", 2)[1])
+		for i, run := range applyAPI(pt, srcs) {
+			res.Evals++
+			res.Ob("case-clause-runs", 1)
+			rep := replayFiles(pt, srcs[i], run.Out)
+			out := strings.Join(strings.Fields(run.Out), " ")
+			switch {
+			case run.Pan != "":
+				res.Violate(prop+"/engine-panic:"+core.PanicSignature(run.Pan), run.Pan, rep)
+			case i == 0 && (run.Err != "" || run.Out != srcs[0]):
+				res.Violate(prop+"/false-positive/case-clause", "'case cx, ...:' and a default clause: "+run.Err, rep)
+			case i == 1 && run.Err == "" && run.Out != srcs[1]:
+				res.Violate(prop+"/wrong-rewrite/case-clause-left-empty", "'case "+one+":' under '-case cx, ...:' '+case ...:' became: "+out, rep)
+			case i == 2 && (run.Err != "" || !strings.Contains(out, "case "+second+": foo()")):
+				res.Violate(prop+"/wrong-rewrite/case-clause", "'case "+two+":' under '-case cx, ...:' '+case ...:': "+run.Err+" "+out, rep)
+			}
+		}
+	}
 	p := pcs[(idx/3)%len(pcs)]
 	clauses := []string{"default:", "case " + one + ":", "case " + two + ":"}
 	var sb strings.Builder
